@@ -27,7 +27,7 @@ func init() {
 		out := overrunCases(tier, seed)
 		// client role overruns
 		for _, c := range listers["C09"](tier, seed) {
-			if c.Family == "rawsrv" && c.S["dev"] == "overrun" {
+			if c.Family == "rawsrv" && (c.S["dev"] == "overrun" || c.S["dev"] == "overrun-one-frame") {
 				out = append(out, c)
 			}
 		}
